@@ -7,7 +7,7 @@ import random as _pyrandom
 import numpy as np
 
 from .core import InjectedAbort, FaithfulRandom
-from .models import (nested_variant_spec, gen_mdp_spec, gen_graph_spec, gen_pomdp_spec, MDPView, GraphView, POMDPView,
+from .models import (sym_pomdp_spec, sym_qmdp_table, nested_variant_spec, gen_mdp_spec, gen_graph_spec, gen_pomdp_spec, MDPView, GraphView, POMDPView,
                      make_mdp, make_graph_mdp, make_pomdp, dyadic)
 from .ctx import canon
 
@@ -47,6 +47,10 @@ def gen_scenario(rng, component=None, kinds=('int', 'str', 'str', 'tuple', 'fd')
         else:
             params = dict(policy=rng.choice(('fsc', 'fsc', 'alpha', 'qmdp')), cap=rng.choice((3, 6, 10)), pseed=rng.randrange(10 ** 6),
                           start=rng.choice((None, None, 'first')))
+            if rng.random() < 0.4:
+                # the symmetric two-door problem, on which a value-based policy's greedy set is decided by the last bits of the belief
+                problem = dict(type='pomdp', spec=sym_pomdp_spec(rng, kinds=kinds))
+                params.update(policy='qmdp_sym', cap=rng.choice((12, 16, 24)), start=None)
     elif comp == 'implicit':
         problem = dict(type='none')
         params = dict(n=rng.choice((5, 20)), p=rng.choice((0.3, 0.5)),
@@ -476,6 +480,10 @@ def run_component(sc, problem, algo, env):
         def tab(tr):
             return [[canon(st.state), canon(st.action), canon(st.nextstate), canon(st.reward), canon(st.observation),
                      canon(_agent(st.agentstate))] for st in tr]
+        if getattr(env, 'share', False):
+            # the policy object has been rolled out before, with other seeds
+            for k_ in range(1, 9):
+                pol.run_on(problem, initial_state=start, max_steps=p['cap'], rng=_pyrandom.Random(seed + k_))
         a = tab(pol.run_on(problem, initial_state=start, max_steps=p['cap'], rng=env.rng_factory(seed)))
         b = tab(pol.run_on(problem, initial_state=start, max_steps=p['cap'], rng=env.rng_factory(seed)))
         return dict(steps=a, must_equal=[["rollout_pomdp: same policy and model objects rolled out twice with generators seeded alike", a, b]])
@@ -510,6 +518,11 @@ def _pomdp_policy(pomdp, p):
     if kind == 'alpha':
         from msdm.core.pomdp.alphavectorpolicy import AlphaVectorPolicy
         return AlphaVectorPolicy(pomdp, r.integers(-3, 4, size=(2, nS)).astype(float))
+    if kind == 'qmdp_sym':
+        from msdm.algorithms.qmdp import QMDPPolicy
+        q = sym_qmdp_table()
+        sl, al = list(pomdp.state_list), list(pomdp.action_list)      # (make_pomdp declares both lists in id order)
+        return QMDPPolicy(pomdp, {s_: {a_: q[i][j] for j, a_ in enumerate(al)} for i, s_ in enumerate(sl)})
     if kind == 'qmdp':
         from msdm.algorithms.qmdp import QMDPPolicy
         q = r.integers(-2, 3, size=(nS, nA)).astype(float)
